@@ -40,6 +40,9 @@ _SURR_AFTER_PCT = re.compile("%[\ud800-\udfff]|%[^\ud800-\udfff][\ud800-\udfff]"
 @predicate
 def f2_pct_surrogate(rec, args):
     """C05 'call' case on a requoting quoter whose word has a lone surrogate within two code points after a '%'."""
+    if rec["case"] == "url":
+        # URL-level echo of the same defect: a constructor/join route (the requoting ones) fed with such a word
+        return isinstance(args[1], str) and str(args[0]).startswith(("ctor", "join")) and bool(_SURR_AFTER_PCT.search(args[1]))
     if rec["case"] not in ("call", "boundary"):
         return False
     if rec["case"] == "call":
